@@ -105,6 +105,29 @@ def mutate_inputs(inputs, rnd):
     return out
 
 
+def random_inputs(contract, rnd):
+    """seed inputs for the native search when the solver produced no model"""
+    out = {}
+    for nm, kind in contract.params.items():
+        if kind in ("bytes", "bytearray"):
+            out[nm] = bytes(rnd.randrange(256) for _ in range(rnd.choice([0, 1, 2, 4, 8, 8, 12, 20])))
+        elif isinstance(kind, tuple) and kind[0] == "bytesn":
+            out[nm] = bytes(rnd.randrange(256) for _ in range(kind[1]))
+        elif kind in ("int", "nat", "byte", "u16", "boolint"):
+            out[nm] = rnd.choice([0, 1, 2, 3, 7, 8, 255, 256, 65535, 65536, -1, rnd.randrange(1 << 32)])
+            if kind in ("nat", "byte", "u16", "boolint"):
+                out[nm] = abs(out[nm]) % {"nat": 1 << 16, "byte": 256, "u16": 65536, "boolint": 2}[kind]
+        elif kind == "bool":
+            out[nm] = rnd.random() < 0.5
+        elif isinstance(kind, tuple) and kind[0] == "const":
+            out[nm] = kind[1]
+        elif isinstance(kind, tuple) and kind[0] == "bytelist":
+            out[nm] = [rnd.randrange(256) for _ in range(kind[1])]
+        else:
+            return None
+    return out
+
+
 def replay_obligation(prop, o, plan):
     """returns the replay record written to /verif/replays/<prop>/..."""
     info = {
@@ -128,14 +151,42 @@ def replay_obligation(prop, o, plan):
             info["reproduced"] = True
             info["observed"] = o.detail
             return info
+        fac = getattr(plan, "unit_factories", {}).get(o.unit)
+        if fac is not None:
+            import importlib
+            contract = getattr(importlib.import_module(fac[0]), fac[1])(fac[2])
+            reg = _registry()
+            info["function"] = contract.qualname
+            info["factory"] = list(map(repr, fac))
+            for cand in [o.inputs or {}] + [{}]:
+                try:
+                    vio, observed = run_contract_natively(reg, contract, dict(cand))
+                except Exception as e:  # noqa
+                    vio, observed = None, f"replay error {type(e).__name__}: {e}"
+                info["observed"] = observed
+                if vio:
+                    info["reproduced"] = True
+                    info["violated_clauses"] = vio
+                    return info
+            info["note"] = "model and default sample of this value kind did not reproduce natively"
+            return info
         target = plan.unit_contracts.get(o.unit)
-        if target is None or o.inputs is None or "__decode_error__" in (o.inputs or {}):
+        if target is not None and o.inputs is None:
+            o.inputs = {}
+        if target is None or "__decode_error__" in (o.inputs or {}):
             info["note"] = "no native replay available for this obligation; verifier output attached"
             return info
         reg = _registry()
         qn, member = target
         contract = reg.families[qn][1][member] if member is not None else reg.contracts[qn]
         info["function"] = qn if member is None else f"{qn}[{member}]"
+        rnd = random.Random(12345)
+        if not o.inputs:
+            o.inputs = random_inputs(contract, rnd)
+            if o.inputs is None:
+                info["note"] = "no model and no input generator for this contract's parameters"
+                return info
+            info["inputs"] = jsonable(o.inputs)
         vio, observed = run_contract_natively(reg, contract, o.inputs)
         info["observed"] = observed
         if vio:
@@ -143,12 +194,11 @@ def replay_obligation(prop, o, plan):
             info["violated_clauses"] = vio
             return info
         # not reproduced with the model itself (e.g. counterexample to induction): search around it
-        rnd = random.Random(12345)
         t0 = time.time()
         tries = 0
         while time.time() - t0 < 5.0:
             tries += 1
-            cand = mutate_inputs(o.inputs, rnd)
+            cand = mutate_inputs(o.inputs, rnd) if rnd.random() < 0.7 else (random_inputs(contract, rnd) or o.inputs)
             vio, observed = run_contract_natively(reg, contract, cand)
             if vio:
                 info["reproduced"] = True
